@@ -88,7 +88,9 @@ MCPatternsOf(sd) ==
     [] sd.fam = "nou" -> {[sd EXCEPT !.pats = <<UNoU(x)>>] :
                             x \in {UCat(ULit(SA), UCat(UDot, ULit(SB))), UCls({SA}, TRUE), UCat(ULit(SA), UCls({SB}, TRUE)), UWCls(TRUE),
                                    UCat(ULit(SA), UWCls(TRUE)), URep(UDot, 1, Inf, TRUE), UCls({SA, SLF}, FALSE), UCls({SNUL, SA}, FALSE),
-                                   UCat(ULit(SA), UCat(UCls({SCR, SLF, SB}, FALSE), ULit(SB))), UCls({SLF, SCR}, FALSE), UDot}}
+                                   UCat(ULit(SA), UCat(UCls({SCR, SLF, SB}, FALSE), ULit(SB))), UCls({SLF, SCR}, FALSE), UDot,
+                                   \* a small byte class with a member above 0x7F between literals (inner literals are bytes, not characters)
+                                   UCat(WPlus, UCat(ULit(SA), UCat(UCls({SFF, SB}, FALSE), UCat(ULit(SB), WPlus))))}}
     \* several patterns of which only some hold the raw terminator byte (as fixed strings and as regexes without meta
     \* characters): the set must be rejected, or no match may hold the terminator
     [] sd.fam = "manylf" -> {[sd EXCEPT !.pats = ps, !.fixed = fx] : fx \in BOOLEAN,
